@@ -179,6 +179,8 @@ def b_min(E, *a, **kw):
         if not a:
             raise PyRaise("ValueError", "min() arg is an empty sequence")
     a = [_scalar(E, x) for x in a]
+    if any(isinstance(x, C.Anything) for x in a):
+        return C.Anything("min")
     return C.smin(*a)
 
 
@@ -189,6 +191,8 @@ def b_max(E, *a, **kw):
         if not a:
             raise PyRaise("ValueError", "max() arg is an empty sequence")
     a = [_scalar(E, x) for x in a]
+    if any(isinstance(x, C.Anything) for x in a):
+        return C.Anything("max")
     return C.smax(*a)
 
 
